@@ -1887,6 +1887,11 @@ class UserSpaceImpl(*_user_space_impl_base):
             else:   # defined
                 selfdict[name] = selfdict.pop(name)
 
+        # The namespace of a space without cells may never have been
+        # evaluated, in which case the notification above does not
+        # reach it: delete the ItemSpaces explicitly
+        DynamicBase.on_namespace_change(self)
+
     def on_del_cells(self, name):
         cells = self.cells[name]
         self.model.clear_obj(cells)
